@@ -562,20 +562,34 @@ def r17_3(ctx):
       return None
     return atom
 
+  # codomain first: it needs no understanding of the branch tests.  The paper
+  # argument covers exactly two results - the term itself (trivially
+  # equivalent) and FALSE (under the impossibility condition decided below).
+  # Any other returned term is a different formula whose equivalence nothing
+  # here argues for.
+  def simp_kind(v):
+    s = src(v)
+    if s in ("self", "FALSE"):
+      return s
+    if isinstance(v, ast.Call) and src(v.func) in ("_Eq", "type(self)", "self.__class__") and \
+        not v.keywords and [src(x) for x in v.args] == ["self.left", "self.right"]:
+      return "self"          # a structurally equal copy
+    return "other"
+
+  leaves = [(r, v, simp_kind(v)) for r, v, _ in paths]
+  foreign = [(r, v) for r, v, k in leaves if k == "other"]
+  cod = {"returns": sorted({src(v) for _, v, _ in leaves})}
+  ctx.check(not foreign, "_Eq.simplify:codomain", BQ,
+            foreign[0][0].lineno if foreign else fn.lineno,
+            "_Eq.simplify may only return the term itself or FALSE; it can "
+            f"return `{src(foreign[0][1]) if foreign else ''}`, a different term "
+            "whose equivalence under the table is not covered by the "
+            "normalisation argument", cod)
   worlds2 = [(a, b) for a in (True, False) for b in (True, False)]
   table = S.decide(paths, worlds2, simp_atom)
-  kinds = {}
-  for w in worlds2:
-    s = src(table[w][1])
-    if s not in ("self", "FALSE", "TRUE"):
-      raise AnalysisError(f"_Eq.simplify returns `{s}`")
-    kinds[w] = s
-  facts = {f"right-is-variable={a},right-possible-for-left={b}": kinds[(a, b)]
+  kinds = {w: simp_kind(table[w][1]) for w in worlds2}
+  facts = {f"right-is-variable={a},right-possible-for-left={b}": src(table[(a, b)][1])
            for a, b in worlds2}
-  only = set(kinds.values()) <= {"self", "FALSE"}
-  ctx.check(only, "_Eq.simplify:codomain", BQ, fn.lineno,
-            f"_Eq.simplify may only return the term itself or FALSE: {facts}",
-            facts)
   wrong = [w for w in worlds2 if kinds[w] == "FALSE" and w != (False, False)]
   ctx.check(not wrong, "_Eq.simplify:false-only-if-impossible", BQ,
             table[wrong[0]][0].lineno if wrong else fn.lineno,
@@ -881,6 +895,160 @@ def r17_6(ctx):
 
 
 # ---------------------------------------------------------------------------
+# R17.7
+
+_SET_FRESH_CALLS = {"set", "frozenset", "copy.copy", "copy.deepcopy"}
+_SET_FRESH_METHODS = {"union", "copy", "intersection", "difference",
+                      "symmetric_difference"}
+_SET_MUTATORS = {"add", "update", "pop", "remove", "discard", "clear",
+                 "difference_update", "intersection_update",
+                 "symmetric_difference_update"}
+_SET_READERS = {"union", "copy", "intersection", "difference",
+                "symmetric_difference", "issubset", "issuperset", "isdisjoint",
+                "__contains__", "__len__"}
+
+
+def _value_leaves(v):
+  """The expressions whose object `v` can evaluate to (IfExp / and / or / :=)."""
+  if isinstance(v, ast.IfExp):
+    return _value_leaves(v.body) + _value_leaves(v.orelse)
+  if isinstance(v, ast.BoolOp):
+    out = []
+    for x in v.values:
+      out.extend(_value_leaves(x))
+    return out
+  if isinstance(v, ast.NamedExpr):
+    return _value_leaves(v.value)
+  return [v]
+
+
+def _set_origin(leaf, acc, sym, depth=0):
+  """'fresh' | 'self' | ('alias', text) for one value flowing into the set acc."""
+  if isinstance(leaf, (ast.Set, ast.SetComp)):
+    return "fresh"
+  if isinstance(leaf, ast.BinOp) and isinstance(
+      leaf.op, (ast.BitOr, ast.BitAnd, ast.Sub, ast.BitXor)):
+    return "fresh"           # set operators always build a new set
+  if isinstance(leaf, ast.Call):
+    d = dotted(leaf.func)
+    if d in _SET_FRESH_CALLS:
+      return "fresh"
+    if isinstance(leaf.func, ast.Attribute) and leaf.func.attr in _SET_FRESH_METHODS:
+      return "fresh"
+    raise AnalysisError(
+        f"simplify_exprs: cannot tell whether `{src(leaf)[:60]}` is a new set")
+  if isinstance(leaf, ast.Name):
+    if leaf.id == acc:
+      return "self"
+    if leaf.id in sym.defs and leaf.id not in sym.params and depth < 4 and \
+        len(sym.defs[leaf.id]) == sym.counts.get(leaf.id):
+      kinds = []
+      for dv in sym.defs[leaf.id]:
+        for l2 in _value_leaves(dv):
+          kinds.append(_set_origin(l2, acc, sym, depth + 1))
+      al = [k for k in kinds if isinstance(k, tuple)]
+      if al:
+        return ("alias", f"{leaf.id} = {al[0][1]}")
+      if kinds and all(k == "fresh" for k in kinds):
+        return "fresh"
+      raise AnalysisError(f"simplify_exprs: origin of `{leaf.id}` not understood")
+    return ("alias", leaf.id)
+  if isinstance(leaf, (ast.Attribute, ast.Subscript)):
+    return ("alias", src(leaf))
+  raise AnalysisError(
+      f"simplify_exprs: cannot tell whether `{src(leaf)[:60]}` is a new set")
+
+
+@rule("R17.7", "C17", floor=2)
+def r17_7(ctx):
+  """The accumulator of simplify_exprs never aliases a set owned by a term."""
+  from sa import flow
+  mod = get_module(ctx, BQ)
+  fn = mod.func("simplify_exprs")
+  exprs = _roles(fn)[0]
+  sym = S.Sym(mod, fn)
+  loop = S.single_loop(fn, exprs)
+  acc, _, _ = S.accumulator(mod, fn, loop)
+  # every binding of the accumulator and what it can be bound to
+  defs = {}
+  for n in walk_no_nested(fn):
+    tgt = None
+    if isinstance(n, ast.Assign):
+      names = [x for t in n.targets for x in S._target_names(t)]
+      if acc in names:
+        if not (len(n.targets) == 1 and isinstance(n.targets[0], ast.Name)):
+          raise AnalysisError(f"simplify_exprs: `{src(n)[:60]}` binds the accumulator")
+        tgt = n.value
+    elif isinstance(n, ast.AnnAssign) and acc in S._target_names(n.target):
+      if n.value is None:
+        continue
+      tgt = n.value
+    elif isinstance(n, (ast.NamedExpr, ast.For, ast.With, ast.ExceptHandler,
+                        ast.comprehension)):
+      t = getattr(n, "target", None)
+      bound = S._target_names(t) if t is not None else []
+      if isinstance(n, ast.With):
+        bound = [x for it in n.items if it.optional_vars is not None
+                 for x in S._target_names(it.optional_vars)]
+      if isinstance(n, ast.ExceptHandler):
+        bound = [n.name] if n.name else []
+      if acc in bound:
+        raise AnalysisError(
+            f"simplify_exprs: the accumulator is bound by a {type(n).__name__}")
+    if tgt is not None:
+      kinds = [_set_origin(l, acc, sym) for l in _value_leaves(tgt)]
+      defs[n] = [k for k in kinds if isinstance(k, tuple)]
+  if not defs:
+    raise AnalysisError("simplify_exprs: accumulator binding not found")
+
+  def gen(unit):
+    return [u for u in defs if u is unit]
+
+  def kill(unit):
+    if unit in defs:
+      return lambda f: f is not unit
+    return None
+
+  f = flow.flow(fn, gen, kill, mode="may")
+  # in-place mutations of the accumulator
+  sites = []
+  for n in walk_no_nested(fn):
+    if isinstance(n, ast.Call) and isinstance(n.func, ast.Attribute) and \
+        isinstance(n.func.value, ast.Name) and n.func.value.id == acc:
+      if n.func.attr in _SET_MUTATORS:
+        sites.append((n.func.attr, n))
+      elif n.func.attr not in _SET_READERS:
+        raise AnalysisError(f"simplify_exprs: `{src(n)[:60]}` on the accumulator")
+    elif isinstance(n, ast.AugAssign) and isinstance(n.target, ast.Name) and \
+        n.target.id == acc:
+      sites.append((type(n.op).__name__ + "=", n))
+    elif isinstance(n, ast.Delete):
+      raise AnalysisError("simplify_exprs: del statement")
+  aliasing = {d: a for d, a in defs.items() if a}
+  if not sites:
+    ctx.ok("simplify_exprs:accumulator-never-mutated", BQ, fn.lineno,
+           {"accumulator": acc, "bindings": len(defs)})
+    return
+  for how, site in sorted(sites, key=lambda x: (x[1].lineno, x[1].col_offset)):
+    st = mod.enclosing_stmt(site)
+    # the state in front of the statement (for a compound statement: its header)
+    state = f.before.get(st)
+    if state is None:
+      continue               # unreachable
+    reach = [d for d in state if d in aliasing]
+    # a binding in the same statement cannot precede the call it contains
+    facts = {"accumulator": acc, "mutation": src(site)[:60],
+             "reaching_bindings": sorted(src(d)[:70] for d in state)}
+    ctx.check(not reach, f"simplify_exprs:unaliased@{how}", BQ, site.lineno,
+              f"`{src(site)[:50]}` mutates the accumulator in place, and the "
+              f"binding `{src(reach[0])[:80] if reach else ''}` can make it the "
+              f"very set `{aliasing[reach[0]][0][1] if reach else ''}` owned by "
+              "an existing term: that term silently changes meaning (terms "
+              "are shared and hashed); every value bound to the accumulator "
+              "must be a new set", facts)
+
+
+# ---------------------------------------------------------------------------
 # sensitivity suite
 
 _LOOP = (
@@ -1068,6 +1236,59 @@ VARIANTS = [
      "expect": "fire",
      "old": "    elif isinstance(t1, pytd.NothingType):\n      # nothing as an actual type matches against everything, since it\n      # represents an empty value.\n      return booleq.TRUE",
      "new": "    elif isinstance(t1, pytd.NothingType):\n      # nothing as an actual type matches against everything, since it\n      # represents an empty value.\n      return booleq.TrueValue()"},
+    # R17.3 codomain (decided before the branch tests are interpreted)
+    {"name": "seeded-C17-m2", "rule": "R17.3", "patch": "seeded/C17-m2/patch.diff",
+     "expect": "fire"},
+    {"name": "_Eq.simplify-rewrites-to-value-equality", "rule": "R17.3", "file": BQ,
+     "expect": "fire",
+     "old": "    if self.right in assignments:\n      return self\n",
+     "new": ("    if self.right in assignments:\n"
+             "      common = assignments[self.left] & assignments[self.right]\n"
+             "      return Or(Eq(self.left, v) for v in common)\n")},
+    {"name": "_Eq.simplify-returns-swapped-copy", "rule": "R17.3", "file": BQ,
+     "expect": "fire",
+     "old": "      return self if self.right in assignments[self.left] else FALSE",
+     "new": ("      return (_Eq(self.right, self.left)\n"
+             "              if self.right in assignments[self.left] else FALSE)")},
+    {"name": "twin-_Eq.simplify-single-conditional", "rule": "R17.3", "file": BQ,
+     "expect": "silent",
+     "old": ("    if self.right in assignments:\n      return self\n    else:\n"
+             "      return self if self.right in assignments[self.left] else FALSE"),
+     "new": ("    return (self if self.right in assignments\n"
+             "            or self.right in assignments[self.left] else FALSE)")},
+    {"name": "twin-_Eq.simplify-returns-equal-copy", "rule": "R17.3", "file": BQ,
+     "expect": "silent",
+     "old": "    if self.right in assignments:\n      return self\n",
+     "new": ("    if self.right in assignments:\n"
+             "      return _Eq(self.left, self.right)\n")},
+    # R17.7
+    {"name": "seeded-C17-m1", "rule": "R17.7", "patch": "seeded/C17-m1/patch.diff",
+     "expect": "fire"},
+    {"name": "first-nested-set-adopted", "rule": "R17.7", "file": BQ, "expect": "fire",
+     "old": "      expr_set = expr_set.union(e.exprs)\n",
+     "new": ("      if expr_set:\n"
+             "        expr_set |= e.exprs\n"
+             "      else:\n"
+             "        expr_set = e.exprs\n")},
+    {"name": "nested-set-adopted-through-local", "rule": "R17.7", "file": BQ,
+     "expect": "fire",
+     "old": "      expr_set = expr_set.union(e.exprs)\n",
+     "new": ("      nested = e.exprs\n"
+             "      expr_set = expr_set or nested\n"
+             "      expr_set.update(nested)\n")},
+    {"name": "input-collection-reused-as-accumulator", "rule": "R17.7", "file": BQ,
+     "expect": "fire",
+     "old": "  expr_set = set()\n  for e in exprs:",
+     "new": "  expr_set = exprs if isinstance(exprs, set) else set()\n  for e in exprs:"},
+    {"name": "twin-splice-by-operator", "rule": "R17.7", "file": BQ, "expect": "silent",
+     "old": "      expr_set = expr_set.union(e.exprs)\n",
+     "new": "      expr_set = e.exprs | expr_set\n"},
+    {"name": "twin-splice-in-place", "rule": "R17.7", "file": BQ, "expect": "silent",
+     "old": "      expr_set = expr_set.union(e.exprs)\n",
+     "new": "      expr_set.update(e.exprs)\n"},
+    {"name": "twin-splice-augmented", "rule": "R17.7", "file": BQ, "expect": "silent",
+     "old": "      expr_set = expr_set.union(e.exprs)\n",
+     "new": "      expr_set |= e.exprs\n"},
     # R17.6
     {"name": "_Eq-init-swaps-fields", "rule": "R17.6", "file": BQ, "expect": "fire",
      "old": "    self.left = left\n    self.right = right",
